@@ -255,7 +255,12 @@ pub fn exec_shape(input: &Value) -> (Value, Value) {
         };
         let cfg = config_with(&input["mappings"]);
         let zv = ZodVisitor::with_config(&cfg);
-        let st = TypeResolver::new().parse_type_structure(&r.render());
+        // the type string the resolver sees is the one `type_to_string` produces from the syn tree, not the source text
+        let src = format!("#[derive(Serialize)]\nstruct S {{ x: {} }}\n", r.render());
+        let st = match parse_struct(&src).and_then(|s| s.fields.get(0).map(|f| f.type_structure.clone())) {
+            Some(t) => t,
+            None => return json!(null),
+        };
         json!(zv.visit_type_for_interface(&st))
     });
     imp.insert("zod_iface".into(), iface);
